@@ -86,6 +86,7 @@ type scenario struct {
 	Src   [][]string      `json:"src"` // [repo, tag, img]
 	Tgt   [][]string      `json:"tgt"`
 	Steps []step          `json:"steps"`
+	Page  int             `json:"page"` // page size of tag / repository listings of the model registries (0: one page)
 	Raw   json.RawMessage `json:"-"`
 }
 
@@ -636,7 +637,9 @@ func runScenario(s *scenario, u *universe, regsync, work string, timeout time.Du
 	addr := map[string]string{}
 	var servers []*http.Server
 	for _, n := range w.names {
-		h := w.net.AddHost(n, simreg.DefaultFeatures())
+		feat := simreg.DefaultFeatures()
+		feat.PageSize = s.Page
+		h := w.net.AddHost(n, feat)
 		w.hosts[n] = h
 		name := n
 		h.After = func(rq *simreg.Request) {
